@@ -34,8 +34,9 @@ def build_cmds(ctx):
             raise vlib.Machinery("cannot build %s: %s" % (pkg, e[-2000:]))
         os.chmod(out, 0o755)
     bindir = ctx.harness()
-    shutil.copy(os.path.join(bindir, "probetarget"), os.path.join(d, "probetarget"))
-    os.chmod(os.path.join(d, "probetarget"), 0o755)
+    for b in ("probetarget", "underblock"):
+        shutil.copy(os.path.join(bindir, b), os.path.join(d, b))
+        os.chmod(os.path.join(d, b), 0o755)
     return d
 
 
